@@ -364,6 +364,7 @@ SPECIAL_CHUNKS: list[tuple[str, list[str]]] = [
     ("{n} = Enum('{n}', 'A B C')\n", ["enum:functional"]),
     ("{n} = Union[int, str]\n{n}2 = list[{n}]\n{n}3: typing.TypeAlias = 'dict[str, Plain]'\n", ["type_alias"]),
     ("@overload\ndef {n}(x: int) -> int: ...\n@overload\ndef {n}(x: str) -> str: ...\ndef {n}(x):\n    return x\n", ["overload:module"]),
+    ("def {n}(a: int) -> int:\n    \"\"\"Doc.\n\n    Parameters\n    ----------\n    a : int\n        x\n    \"\"\"\n    return a\n\n\ntry:\n    from fastlib_missing import {n}\nexcept ImportError:\n    pass\n", ["rebound_by_guarded_import"]),
     ("@overload\ndef {n}(x: int) -> int: ...\n@overload\ndef {n}(x: str) -> str: ...\n", ["overload:no_impl"]),
     ("if CONST_I:\n    def {n}(a):\n        return 1\nelse:\n    def {n}(a):\n        return 's'\n", ["conditional_def"]),
     ("try:\n    import numpy as _np\nexcept ImportError:\n    _np = None\n\ndef {n}(a: '_np.ndarray') -> None: ...\n", ["try_import"]),
